@@ -52,6 +52,14 @@ def cases(desc):
             for _ in range(2):
                 dims = rng.sample(gen.DIMS, rng.randint(1, 3))
                 pool.append(gen.spec(rng, dims=dims, kinds=[kinds[d] for d in dims], minsize=1, maxsize=3))
+            if rng.random() < 0.1:
+                # integer labels beyond 2**53: distinct as integers, several of them equal once cast to float (what a cached answer about
+                # the integer labels says need not hold for the cast ones)
+                for sp in pool:
+                    for j, k_ in enumerate(sp["kinds"]):
+                        if k_ == 'i':
+                            sp["labels"][j] = [2 ** 57 + v for v in sp["labels"][j]]
+                            sp["ldtypes"][j] = None
             yield {"block": "twin", "pool": pool, "seed": rng.randrange(10 ** 9), "nsteps": rng.randint(1, 12)}
 
 
@@ -216,11 +224,16 @@ def shifted(da, z):
     return da.DimArray(np.array(z.values, copy=True), axes=axes)
 
 
-def battery(da, x, y):
+def battery(da, x, y, remake=None):
+    """the probes, in order, on x (and y).  With `remake` every probe gets arrays of its own, built just before it: the reference side
+    of the comparison has no history at all, not even the probes that came before"""
     from dimarray.core.axes import MultiAxis
     out = []
 
     def run(name, f):
+        nonlocal x, y
+        if remake is not None:
+            x, y = remake()
         try:
             out.append((name, desc(f())))
         except Exception as e:
@@ -241,6 +254,11 @@ def battery(da, x, y):
             run('getlist', lambda: x.take([ax.values[-1], ax.values[0]], axis=0))
             run('take_axis-labels', lambda: x.take_axis([ax.values[-1], ax.values[0]], axis=ax.name))
             run('reindex-rev', lambda: x.reindex_axis(ax.values[::-1].copy(), axis=ax.name))
+            if ax.values.dtype.kind in 'iuf':
+                # aligned with an array labelled by floats on that dimension (integer labels are cast on the way), ordered like x
+                fl = [0.5, 1.5] if ax.values[-1] >= ax.values[0] else [1.5, 0.5]
+                run('add-floatlabelled', lambda: x + da.DimArray([10., 20.], axes=[da.Axis(fl, ax.name)]))
+                run('align-floatlabelled', lambda: da.align([da.DimArray([10., 20.], axes=[da.Axis(fl, ax.name)]), x], join='outer'))
             if ax.values.dtype.kind in 'if' and ax.size > 1:
                 run('interp-mid', lambda: x.interp_axis([float(ax.values.min()), (float(ax.values.min()) + float(ax.values.max())) / 2.0], axis=ax.name))
         lx = x.axes[-1]
@@ -437,7 +455,7 @@ def twin_program(case, ctx):
                 ctx.v(ID, "twin-rebuild-failed", "cannot rebuild array %d from its observable state after %r: %s %s" % (i, hist[-6:], type(ex).__name__, str(ex)[:100]))
                 continue
             b1 = battery(da, z, other)
-            b2 = battery(da, tw, tother)
+            b2 = battery(da, tw, tother, remake=lambda: (twin(da, z), twin(da, other)))
             ctx.outcomes['twin-comparisons'] += 1
             for (k1, d1), (k2, d2) in zip(b1, b2):
                 if d1 != d2:
